@@ -21,7 +21,21 @@ from sx import Sym, Str
 
 PROP = "C11"
 PROP_FILE = "C11_Conform"
-THEOREMS = []   # filled below (kept in one place with the props file)
+THEOREMS = [   # every theorem of props/C11_Conform.v that has a Print Assumptions
+    "c11_value", "c11_entity", "c11_request", "c11_context", "c11_checkers_agree", "c11_no_schematype_panic",
+    "c11_reject_wrong_type", "c11_reject_nested_in_set", "c11_reject_nested_in_record",
+    "c11_reject_missing_required_nested", "c11_reject_missing_required", "c11_reject_undeclared_attr_nested",
+    "c11_reject_undeclared_attr", "c11_reject_attr_wrong_type", "c11_reject_tag_wrong_type",
+    "c11_reject_tag_on_tagless_type", "c11_reject_bad_ancestor_type", "c11_reject_enum_id_in_value",
+    "c11_enum_id_invalid", "c11_reject_invalid_uid_in_open_attr", "c11_reject_invalid_ancestor_uid",
+    "c11_reject_invalid_own_uid", "c11_reject_undeclared_entity_type", "c11_reject_undeclared_action",
+    "c11_reject_undeclared_action_uid_in_value", "c11_reject_action_mismatch",
+    "c11_reject_request_undeclared_action", "c11_reject_principal_not_in_applies_to",
+    "c11_reject_resource_not_in_applies_to", "c11_reject_request_context", "c11_reject_request_scope_var",
+    "c11_entry_add", "c11_entry_upsert", "c11_entry_from_entities", "c11_entry_request_new",
+    "c11_entry_context_validate", "c11_entry_same_checker", "c11_entry_json_partial",
+    "c11_context_from_json_refuted", "c11_context_from_json_refuted_enum",
+]
 
 MANIFEST = {
     "text": "Boolean conformance checkers transcribed from conformance.rs / coreschema.rs / types.rs (values against "
@@ -37,6 +51,7 @@ MANIFEST = {
 }
 
 KEY_FD = "C11:context_from_json_skips_typecheck"
+FD_FAULTS = ("wrong_type", "enum_id")    # what "skips the type check" explains; nothing else
 
 LONGS = [0, 1, -1, 7, cedar.I64_MAX, cedar.I64_MIN, 2 ** 31]
 STRINGS = ["", "a", "x y", 'q"\\', "\U0001F600", "1.5", "héllo"]
@@ -562,6 +577,14 @@ def run_schema_batch(rep, harness, driver, schemas, stats, distinct, samples):
                            "schema": sg.js, "lost": "the model would be run on a different schema than the implementation; "
                            "all c11_* transfers for this schema"}, no_failing_input=True)
             ok_schema[sid] = False
+    live = [(sid, sg) for sid, sg, _ in schemas if ok_schema[sid]]
+    wf = fw.run_model(driver, [[Sym("conform"), Sym("schema_wf"), S.schema_sx(sg.rs)] for _, sg in live])
+    for (sid, sg), w in zip(live, wf):
+        if str(w) != "true":
+            stats["schema_not_wf"] += 1
+            ok_schema[sid] = False
+            rep.violation({"property": PROP, "kind": "generated schema does not satisfy Conform.schema_wf (hypothesis of c11_entity)",
+                           "model": repr(w), "schema": sg.js}, no_failing_input=True)
     for sid, sg, cases in schemas:
         if not ok_schema[sid]:
             continue
@@ -656,8 +679,8 @@ def run_schema_batch(rep, harness, driver, schemas, stats, distinct, samples):
             if len(set(vs.values())) > 1:
                 oracle_bad.append(("disagreement", sorted(vs.items()), None))
         if oracle_bad:
-            only_fd = all(ep.split("/")[0] == "context_from_json" and v == "accept" and w == "reject"
-                          for ep, v, w in oracle_bad if w is not None) and all(w is not None for _, _, w in oracle_bad)
+            only_cfj = all(w == "reject" and ep.split("/")[0] == "context_from_json" and v == "accept"
+                           for ep, v, w in oracle_bad)
             payload = {"property": PROP,
                        "kind": ("a schema-taking entry point accepts a datum that violates the schema"
                                 if any(w == "reject" for _, _, w in oracle_bad) else
@@ -665,18 +688,37 @@ def run_schema_batch(rep, harness, driver, schemas, stats, distinct, samples):
                        "entry_points": [list(map(str, x)) for x in oracle_bad],
                        "all_verdicts": verdicts, "case": describe(c, sg.js),
                        "replay": "./check C11 --replay <this file>"}
-            if only_fd:
+            key = None
+            if only_cfj:
+                # F-d is "the schema is used for the type-directed parse only, the type check / uid validation
+                # is skipped".  A hit is attributed to it (and only then carries the known key) when ALL hold:
+                #  * the fault is one the parse cannot see (a value of the wrong type / an undeclared enum id);
+                #    missing or undeclared attributes ARE rejected by the parse and never count as F-d;
+                #  * Context::validate on the very Context that from_json returned, Context::validate on the
+                #    same datum, and Request::new all REJECT it;
+                #  * the model of the entry point (Conform.ep_context_from_json = parse only) predicts Accept.
+                explained = (c.fault in FD_FAULTS
+                             and all(canon_rust(raw.get("then_validate", {}))[0] == "reject"
+                                     for ep, _, raw in lst if ep.split("/")[0] == "context_from_json")
+                             and verdicts.get("context_validate") == "reject"
+                             and verdicts.get("request_new") == "reject"
+                             and model[(sid, ci, "context_from_json")][0] == "accept"
+                             and model[(sid, ci, "context_validate")][0] == "reject")
+                if explained:
+                    key = KEY_FD
+                    payload["finding"] = ("Context::from_json_{str,value}(json, Some((schema, action))) accepts a context that "
+                                          "Context::validate / Request::new reject (ContextJsonParser only runs the type-directed "
+                                          "parse, never the typecheck nor validate_euids)")
+                else:
+                    key = "C11:context_from_json:accepts:%s" % c.fault     # NOT the known finding
+            if key == KEY_FD:
                 stats["fd_hits"] += 1
-                payload["finding"] = ("Context::from_json_{str,value}(json, Some((schema, action))) accepts a context that "
-                                      "Context::validate / Request::new reject (ContextJsonParser only runs the type-directed "
-                                      "parse, never the typecheck nor validate_euids)")
-                if stats["fd_hits"] <= 3:
-                    rep.violation(payload, key=KEY_FD)
-                elif rep.match_known(KEY_FD) is None:
-                    pass      # enough replays of the same call-site finding
+                stats["fd_by_fault"][c.fault] = stats["fd_by_fault"].get(c.fault, 0) + 1
+                if stats["fd_hits"] <= 3 or rep.match_known(KEY_FD) is not None:
+                    rep.violation(payload, key=KEY_FD)      # (when not known: 3 replays of the call site are enough)
             else:
                 stats["oracle_failures"] += 1
-                rep.violation(payload)
+                rep.violation(payload, key=key)
         elif fd:
             stats["fd_hits"] += 1
 
@@ -754,7 +796,7 @@ def run(rep, tier, seed):
     rng = random.Random(seed)
     nschemas = 14 if tier == "quick" else 400
     stats = {"schemas": 0, "schema_rejected": 0, "schema_mismatch": 0, "cases": 0, "evaluations": 0, "mismatch": 0,
-             "kind_mismatch": 0, "unmodelled": 0, "oracle_failures": 0, "fd_hits": 0, "fault_classes": {},
+             "kind_mismatch": 0, "unmodelled": 0, "oracle_failures": 0, "fd_hits": 0, "fd_by_fault": {}, "schema_not_wf": 0, "fault_classes": {},
              "fault_depth": {}, "by_ep": {}, "reject_kinds": {}}
     distinct, samples = set(), []
     first_model = None
@@ -791,6 +833,8 @@ def run(rep, tier, seed):
         "model_mismatches": stats["mismatch"], "kind_mismatches": stats["kind_mismatch"],
         "oracle_failures_other_than_Fd": stats["oracle_failures"],
         "context_from_json_accepts_nonconformant (finding F-d)": stats["fd_hits"],
+        "finding_F-d_by_fault_class": stats["fd_by_fault"],
+        "schemas_failing_schema_wf": stats["schema_not_wf"],
         "samples": samples[:3],
     }
     rep.assumptions = [
